@@ -233,9 +233,9 @@ fn doy_oracle(c: &Doy) -> Verdict {
 
 pub fn subs() -> Vec<Box<dyn DynSub>> {
     vec![
-        sub(Sub { name: "c20.time_of_week", source: Source::Gen(tow_strategy, 600_000, 15_000_000), oracle: tow_oracle, known: no_known, hang_is_violation: false }),
-        sub(Sub { name: "c20.time_of_week_inverse", source: Source::Gen(towinv_strategy, 400_000, 10_000_000), oracle: towinv_oracle, known: no_known, hang_is_violation: false }),
-        sub(Sub { name: "c20.ns_counters", source: Source::Gen(counter_strategy, 400_000, 10_000_000), oracle: counter_oracle, known: no_known, hang_is_violation: false }),
-        sub(Sub { name: "c20.day_of_year", source: Source::Gen(doy_strategy, 300_000, 8_000_000), oracle: doy_oracle, known: no_known, hang_is_violation: false }),
+        sub(Sub { name: "c20.time_of_week", source: Source::Gen(tow_strategy, 2_400_000, 15_000_000), oracle: tow_oracle, known: no_known, hang_is_violation: false }),
+        sub(Sub { name: "c20.time_of_week_inverse", source: Source::Gen(towinv_strategy, 1_600_000, 10_000_000), oracle: towinv_oracle, known: no_known, hang_is_violation: false }),
+        sub(Sub { name: "c20.ns_counters", source: Source::Gen(counter_strategy, 1_600_000, 10_000_000), oracle: counter_oracle, known: no_known, hang_is_violation: false }),
+        sub(Sub { name: "c20.day_of_year", source: Source::Gen(doy_strategy, 1_200_000, 8_000_000), oracle: doy_oracle, known: no_known, hang_is_violation: false }),
     ]
 }
